@@ -227,6 +227,14 @@ impl MT101 {
             });
         }
 
+        // Sequence B is mandatory: at least one transaction
+        if transactions.is_empty() {
+            return Err(crate::errors::ParseError::InvalidFormat {
+                message: "MT101: At least one transaction (sequence B, starting with field 21) is required"
+                    .to_string(),
+            });
+        }
+
         // Verify all content is consumed
         verify_parser_complete(&parser)?;
 
